@@ -81,7 +81,9 @@ class Rule_CV05(BaseRule):
         after_op_list = siblings.select(start_seg=context.segment)
         next_code = after_op_list.first(sp.is_code())
 
-        if not next_code.all(sp.is_type("null_literal")):
+        # NOTE: `.all()` is also true for an empty selection, i.e. when nothing
+        # follows the operator within its parent (e.g. `ORDER BY a USING =`).
+        if not next_code or not next_code.all(sp.is_type("null_literal")):
             return None
 
         sub_seg = next_code.get()
